@@ -122,6 +122,10 @@ fn leaves() -> Vec<MV> {
         MV::Bytes(vec![0, 255, 16]),
         MV::Bytes(vec![]),
         MV::Bytes(vec![1, 2]),
+        MV::Bytes((0u8..=255).collect()),
+        MV::Bytes(vec![0xfb, 0xef, 0xbe, 0xff, 0xff, 0xff]),
+        MV::Bytes(vec![0xf8]),
+        MV::Bytes(vec![0x61, 0x62, 0x3f]),
         MV::Duration(1, 0),
         MV::Duration(9223372036, 854775807),
         MV::Duration(-9223372037, 145224192),
